@@ -130,6 +130,8 @@ def sibling_diff(A):
 
 def check(A):
     sibling_diff(A)
+    # what the asyncio server is handed must be what the threaded one is handed
+    R.asgi_body_rule(A, 'C18')
     for fl in S.FLAVOURS:
         S.receive_table(A, fl, 'C18')
         S.close_once(A, fl, 'C18')
